@@ -425,7 +425,12 @@ func expandGlob(root, pattern string) ([]string, error) {
 	var matches []string
 	ignoreHiddenGlobFn := func(path string, d fs.DirEntry) error {
 		if strings.HasPrefix(path, ".") {
-			return filepath.SkipDir
+			// Only a directory may be skipped, returning SkipDir for a file
+			// would skip the rest of the directory it lives in
+			if d.IsDir() {
+				return filepath.SkipDir
+			}
+			return nil
 		}
 
 		abs, err := filepath.Abs(filepath.Join(root, path))
